@@ -22,13 +22,117 @@ from . import report
 from .model import REPO_ROOT
 
 
+def _rename_locals(tree, suffix="_v"):
+    """Behaviour-preserving: rename every purely local variable of every outermost function (params, globals, names
+    rebound in nested scopes and comprehension targets are left alone)."""
+    fdefs = (ast.FunctionDef, ast.AsyncFunctionDef)
+
+    def outer_functions(node, inside=False):
+        for ch in ast.iter_child_nodes(node):
+            if isinstance(ch, fdefs):
+                if not inside:
+                    yield ch
+                continue
+            yield from outer_functions(ch, inside)
+
+    for fn in outer_functions(tree):
+        own, banned = set(), set()
+
+        def scan(node, depth):
+            for ch in ast.iter_child_nodes(node):
+                if isinstance(ch, fdefs + (ast.Lambda,)):
+                    a = ch.args
+                    for x in a.posonlyargs + a.args + a.kwonlyargs + [a.vararg, a.kwarg]:
+                        if x is not None:
+                            banned.add(x.arg)
+                    if isinstance(ch, fdefs):
+                        banned.add(ch.name)
+                    scan(ch, depth + 1)
+                elif isinstance(ch, ast.ClassDef):
+                    banned.add(ch.name)
+                    for n in ast.walk(ch):
+                        if isinstance(n, ast.Name):
+                            banned.add(n.id)
+                elif isinstance(ch, (ast.ListComp, ast.SetComp, ast.DictComp, ast.GeneratorExp)):
+                    for g in ch.generators:
+                        for n in ast.walk(g.target):
+                            if isinstance(n, ast.Name):
+                                banned.add(n.id)
+                    scan(ch, depth)
+                elif isinstance(ch, (ast.Global, ast.Nonlocal)):
+                    banned.update(ch.names)
+                elif isinstance(ch, (ast.Import, ast.ImportFrom)):
+                    for al in ch.names:
+                        banned.add((al.asname or al.name).split(".")[0])
+                elif isinstance(ch, ast.ExceptHandler):
+                    if ch.name:
+                        banned.add(ch.name)
+                    scan(ch, depth)
+                else:
+                    if isinstance(ch, ast.Name) and isinstance(ch.ctx, (ast.Store, ast.Del)):
+                        (own if depth == 0 else banned).add(ch.id)
+                    scan(ch, depth)
+
+        a = fn.args
+        for x in a.posonlyargs + a.args + a.kwonlyargs + [a.vararg, a.kwarg]:
+            if x is not None:
+                banned.add(x.arg)
+        scan(fn, 0)
+        ren = own - banned
+        for n in ast.walk(fn):
+            if isinstance(n, ast.Name) and n.id in ren:
+                n.id = n.id + suffix
+    return tree
+
+
+def _transform(kind, text):
+    if kind == "unparse":
+        return ast.unparse(ast.parse(text)) + "\n"
+    if kind == "shift":
+        return "# shifted\n#\n\n" + text.replace("\n    def ", "\n\n    # moved\n    def ")
+    if kind == "rename-locals":
+        return ast.unparse(_rename_locals(ast.parse(text))) + "\n"
+    raise ValueError(kind)
+
+
+GLOBAL_BENIGN = [
+    {"id": "global-reformat(ast.unparse of every module)", "transform": "unparse", "expect": None},
+    {"id": "global-shift(comment lines added before every module and method)", "transform": "shift", "expect": None},
+    {"id": "global-rename-locals(every purely local variable renamed)", "transform": "rename-locals", "expect": None},
+]
+
+
 def _one(args):
     prop, seed, src_root = args
     from .cli import evaluate
 
+    if seed.get("transform"):
+        tmp = tempfile.mkdtemp(prefix="nqsa-st-")
+        try:
+            shutil.copytree(os.path.join(src_root, "netqasm"), os.path.join(tmp, "netqasm"),
+                            ignore=shutil.ignore_patterns("__pycache__", "*.pyc"))
+            for dp, dn, fns in os.walk(os.path.join(tmp, "netqasm")):
+                for fn in fns:
+                    if fn.endswith(".py"):
+                        path = os.path.join(dp, fn)
+                        with open(path) as fh:
+                            text = fh.read()
+                        with open(path, "w") as fh:
+                            fh.write(_transform(seed["transform"], text))
+            ctx = evaluate(prop, "quick", root=tmp)
+            violations, known = report.classify(ctx)
+            if ctx.errors:
+                return (seed["id"], "failed", "benign transformation -> analysis error: " + "; ".join(ctx.errors)[:400])
+            if violations:
+                return (seed["id"], "failed", "benign transformation -> violation: " + "; ".join(f"{v.rule} {v.construct}" for v in violations)[:400])
+            return (seed["id"], "ok", "silent on benign transformation")
+        finally:
+            shutil.rmtree(tmp, ignore_errors=True)
     edits = seed.get("edits") or [(seed["file"], seed["old"], seed["new"])]
     texts = {}
-    for rel, old, new in edits:
+    for e in edits:
+        rel, old, new = e[:3]
+        want = e[3] if len(e) > 3 else seed.get("count", 1)
         path = os.path.join(src_root, rel)
         if rel not in texts:
             try:
@@ -38,7 +142,7 @@ def _one(args):
                 return (seed["id"], "skipped", "file absent")
         text = texts[rel]
         cnt = text.count(old)
-        if cnt == 0 or (seed.get("count", 1) != "all" and cnt != seed.get("count", 1)):
+        if cnt == 0 or (want != "all" and cnt != want):
             return (seed["id"], "skipped", f"anchor occurs {cnt}x in {rel}")
         texts[rel] = text.replace(old, new)
     for rel, new_text in texts.items():
@@ -83,7 +187,7 @@ def run_seeds(prop, seeds, src_root=None, workers=None):
 
 def run_for(prop, ctx=None):
     mod = importlib.import_module(f"nqsa.rules.{prop.lower()}")
-    seeds = list(getattr(mod, "SEEDS", [])) + [dict(s, expect=None) for s in getattr(mod, "BENIGN", [])]
+    seeds = list(getattr(mod, "SEEDS", [])) + [dict(s, expect=None) for s in getattr(mod, "BENIGN", [])] + GLOBAL_BENIGN
     res = run_seeds(prop, seeds)
     summary = {"seeds": len(seeds), "ok": 0, "skipped": 0, "failed": 0, "results": []}
     for sid, status, msg in res:
